@@ -714,10 +714,13 @@ def main():
         from translate_keys import emit_keys  # noqa
 
         nk = emit_keys(outdir)
+        from translate_single import emit_single  # noqa
+
+        ns = emit_single(outdir)
     except TranslateError as e:
         print(str(e))
         sys.exit(2)
-    print(f"translate: {nr} parser rules, {nc} instruction classes, {nl} leaf functions, {nk} key/index classification functions -> {outdir}")
+    print(f"translate: {nr} parser rules, {nc} instruction classes, {nl} leaf functions, {nk} key/index classification functions, {ns} wrapper functions -> {outdir}")
 
 
 if __name__ == "__main__":
